@@ -881,6 +881,9 @@ struct Property
     // dependent fields, bounds the work).  Must be idempotent and must leave every generated case unchanged in meaning.
     // A property without it has no coverage-guided stage.
     std::function<void(Case&)> normalize;
+    // optional domain-aware mutation of the coverage-guided mode (used for a third of the mutations when present): relations between
+    // elements that a field-wise mutator only finds by luck (a continuation that fits an earlier frame, ...)
+    std::function<void(Case&, MutRng&)> smartMutate;
 };
 
 template <class Case>
@@ -1099,7 +1102,12 @@ int pbtMain(int, char**, const Property<Case>& propIn)
         fromBin(data, size, c);
         int n = 1 + static_cast<int>(rng.below(4) == 0 ? rng.below(4) : 0);
         for (int i = 0; i < n; ++i)
-            mutateCase(c, rng);
+        {
+            if (prop.smartMutate && rng.below(3) == 0)
+                prop.smartMutate(c, rng);
+            else
+                mutateCase(c, rng);
+        }
         prop.normalize(c);
         Bytes b = toBin(c);
         if (b.empty() || b.size() > maxSize)
